@@ -443,6 +443,11 @@ outer:
 		}
 	}
 
+	// deliver the data that still waits behind missing segments, the assemblers are not used after this
+	for _, a := range tcpAssembler {
+		a.FlushAll()
+	}
+
 	// scan for next unused stream id
 	nextStreamID := uint64(0)
 	for _, idx := range existingIndexes {
